@@ -1638,9 +1638,12 @@ def source_name(ix, op):
         if p["l"] in names:
             return names[p["l"]]
         d = ix.single_def(p["l"])
-        if not d or d[0] != "assign" or d[3]["rv"]["k"] not in ("use", "cast"):
+        if d and d[0] == "call" and d[3]["args"] and any(ix.callee(d[3]).endswith(x) for x in ("Deref::deref", "DerefMut::deref_mut", "::deref", "::as_slice", "::as_ref", "::as_str", "::as_bytes", "::iter", "::borrow")):
+            p = op_place(d[3]["args"][0])
+            continue
+        if not d or d[0] != "assign" or d[3]["rv"]["k"] not in ("use", "cast", "ref"):
             return None
-        p = op_place(d[3]["rv"]["a"])
+        p = d[3]["rv"]["p"] if d[3]["rv"]["k"] == "ref" else op_place(d[3]["rv"]["a"])
     return None
 
 
